@@ -147,8 +147,14 @@ Section ServerKeys.
         end
     end.
 
-  Fixpoint perspective_docs (pname : bytes) (pkeys : list (bytes * bytes)) (docs : list server_keys)
-           (results : kmap pkres) : option (kmap pkres) :=
+  (* the map of requested server names the fetcher builds from its request map *)
+  Definition server_requested (asked : kmap Z) (server : bytes) : bool :=
+    existsb (fun kv => bytes_eqb (fst (fst kv)) server) asked.
+
+  (* a document about a server that was not asked for is skipped (finding F64): CheckKeys below is
+     handed the document's own name, so nothing else ties it to the requests *)
+  Fixpoint perspective_docs (pname : bytes) (pkeys : list (bytes * bytes)) (asked : kmap Z)
+           (docs : list server_keys) (results : kmap pkres) : option (kmap pkres) :=
     match docs with
     | [] => Some results
     | sk :: rest =>
@@ -157,8 +163,10 @@ Section ServerKeys.
         | Some kids =>
             match notary_signed pname pkeys (sk_raw sk) kids with
             | Some true =>
-                if ck_all (check_keys (sk_server sk) fetcher_check_now sk)
-                then perspective_docs pname pkeys rest (map_server_keys sk results)
+                if negb (server_requested asked (sk_server sk))
+                then perspective_docs pname pkeys asked rest results
+                else if ck_all (check_keys (sk_server sk) fetcher_check_now sk)
+                then perspective_docs pname pkeys asked rest (map_server_keys sk results)
                 else None
             | _ => None
             end
@@ -169,6 +177,6 @@ Section ServerKeys.
     : option (kmap pkres) :=
     match lookup_keys pname asked with
     | None => None
-    | Some docs => perspective_docs pname pkeys docs []
+    | Some docs => perspective_docs pname pkeys asked docs []
     end.
 End ServerKeys.
